@@ -1066,4 +1066,23 @@ example :
     let w : Wave := ⟨1000, 10, [0, 0, 1, 2, 1, 2, 0, 1, 2, 1, 2, 0, 1, 2, 1]⟩
     w.iw = (geomKymo 2 2 2 1 3 0).take 15 ∧ 2 ≤ w.subset.length := by decide
 
+/-! ## Placement of the per-pixel timestamps of a scan -/
+
+
+/-- Placement for scans: `Scan.timestamps[f][a][b]` is the timestamp of pixel `f·L·P + a·P + b`
+    (line `a`, pixel `b` of frame `f`), with the two image axes swapped when the fast axis has the higher
+    physical axis number; `0` for the padding of an unfinished last frame. -/
+theorem scan_ts_placement (w : Wave) (P L : Nat) (flip : Bool) (pix : List Int) (h : w.pixMean = some pix) :
+    w.scanTimestamps P L flip = some ((List.range (numBlocks pix.length (L * P))).map fun f =>
+      if flip then (List.range P).map fun a => (List.range L).map fun b => pix.getD (f * (L * P) + (b * P + a)) 0
+      else (List.range L).map fun a => (List.range P).map fun b => pix.getD (f * (L * P) + (a * P + b)) 0) := by
+  unfold Wave.scanTimestamps
+  rw [h, Option.map_some, scanFrames_eq]
+
+example : (⟨1000, 10, [0, 2, 2, 0, 2, 2, 0, 0, 2, 2, 0, 2]⟩ : Wave).scanTimestamps 2 2 true
+    = some [[[1010, 1040], [1020, 1050]], [[1080, 1110], [1090, 0]]] := by
+  have h := (pixel_ts_spec ⟨1000, 10, [0, 2, 2, 0, 2, 2, 0, 0, 2, 2, 0, 2]⟩ 1 (by decide) (by decide)
+    (by decide)).1
+  rw [scan_ts_placement _ 2 2 true _ h]; decide
+
 end Verif.C03
